@@ -16,6 +16,7 @@ ASSUMPTIONS = ["atomicity of the sections between yield points (each runs under 
 class Stall:
     """deadlock part on the running code: held sender, piled-up requests, stream failure"""
     NAME = "stall"
+    NONDETERMINISTIC = True
     ENGINE = "stall"
     IMPORTS = "From Xds Require Import Model.Base Model.Conc Model.ConcCheck."
     FN = "stall_check"
@@ -61,6 +62,7 @@ class Stall:
 class Stress:
     """random concurrent mix on one real manager; built with the race detector in the thorough tier"""
     NAME = "stress"
+    NONDETERMINISTIC = True
     IMPORTS = "From Xds Require Import Model.Base Model.Conc Model.ConcCheck."
     FN = "stress_check"
     TY = "stress_case"
@@ -70,7 +72,7 @@ class Stress:
     @classmethod
     def gen_cases(cls, rng, tier):
         cls.TIER = tier
-        n, ms = (2, 1500) if tier == "quick" else (6, 8000)
+        n, ms = (3, 1500) if tier == "quick" else (6, 8000)
         return [{"seed": rng.randrange(1 << 30), "millis": ms, "workers": rng.choice([3, 4, 6])} for _ in range(n)]
 
     @classmethod
